@@ -724,6 +724,16 @@ class C17(World):
         except (KeyboardInterrupt, SystemExit, MemoryError):
             raise
         except BaseException as e:
+            # does the reference object, which shares nothing with anybody, answer? If it raises the same way the state itself cannot
+            # be observed (derived vertex colours of a mesh whose last face was removed: AssertionError) - not a sharing question
+            try:
+                observe(kind, want_obj)
+            except (KeyboardInterrupt, SystemExit, MemoryError):
+                raise
+            except BaseException as e2:
+                if type(e2) is type(e):
+                    ctx.count("skip:state-cannot-be-observed")
+                    return
             ctx.fail(oracle, what + "-observe-raises", f"{type(e).__name__}: {e}")
         want = observe(kind, want_obj)
         if route == "copy_novisual":
